@@ -690,7 +690,7 @@ def combos(tier, seed, only=None):
     third = [(lp, np_) for j, np_ in enumerate(gen.NPS) for i, lp in enumerate(gen.LPS)
              if (lp, np_) in allc and (i + j + seed) % 3 == 0]
     must = [("ts", "lsh"), ("lin-ts", "radius"), ("ucb1", "tree"), ("softmax", "clusters"), ("lin-ucb", None), ("pop", None),
-            ("lin-ts", None), ("ts", None)]
+            ("lin-ts", None), ("ts", None), ("ts", "tree")]
     return third + [c for c in must if c in allc and c not in third]
 
 
@@ -699,7 +699,7 @@ def life_jobs(tier, seed, ops, checks=None, rejects=False, depth=None, over=None
     jobs = []
     for i, (lp, np_) in enumerate(combos(tier, seed, only)):
         bkw = dict(lp=lp, np_=np_, labelmap=["int", "str", "float"][(i + seed) % 3],
-                   container=["ndarray", "list", "pandas", "int"][(i // 3 + seed) % 4],
+                   container=["ndarray", "list", "pandas", "int"][(i + i // 3 + seed) % 4],
                    n_jobs=[1, 2, 3][(i + seed) % 3] if np_ else 1, backend="threading" if np_ else None)
         if lp == "ts" and np_ != "tree" and (i + seed) % 2 == 0:
             bkw["bin_name"] = "thr"      # Thompson with an arm-dependent binarizer (under TreeBandit: known finding F9, decided by C14)
